@@ -33,6 +33,8 @@ TEMPLATES = [
     'def function_one(first_param):\n    if first_param == {L}:\n        return {L}\n    elif first_param is {L}:\n        return {L}\n    return 1 == 1.0, 1 is True, 0 == False, {L}\n',
     'def generator_function():\n    del_value = {L}\n    del del_value\n    yield {L}\n    yield {L}\n    yield {L}\n',
     'value_one = (1, 1.0, True, 1, 1.0, True, 1, 1.0, True)\nvalue_two = (0, 0.0, False, 0, 0.0, False, 0, 0.0, False, -0.0, -0.0)\n',
+    'match subject_value:\n    case {{{L}: {L}, "other key": captured_value}}:\n        result_value = ({L}, {L})\n    case {{"key": {L}}}:\n        result_value = {L}\n',
+    'match subject_value:\n    case SomeClass(attribute={L}) | [{L}, *rest_items]:\n        result_value = ({L}, {L}, {L})\n',
     'class SomeClass:\n    __slots__: tuple = ({L}, {L})\n    attribute_one = {L}\n    attribute_two = {L}\n',
     'class SomeClass:\n    __slots__ = ()\n    __slots__ += ({L}, {L})\n    attribute_one = {L}\n    attribute_two = {L}\n',
     # names spelled like the aliases the hoister hands out already exist where the literal is used
@@ -57,6 +59,15 @@ def literal_programs():
     return out
 
 
+FOLDABLE = [
+    'def function_one(items):\n    flags = list((item, False | True) for item in items)\n    return [True, True, flags]\n',
+    'def function_one(items):\n    return [lambda *rest: (rest, True & True), True, True, True]\n',
+    'class SomeClass:\n    flag_value = True | False\n    other_value = [inner for inner in (True, True)]\nvalue_one = True, True\n',
+    "def function_one(items):\n    return {item: 'ab' 'cd' for item in items}, 'abcd', 'abcd', [(inner, 10 * 10 * 10) for inner in items], 1000, 1000, 1000\n",
+    'def function_one(items):\n    def inner_function(value=None):\n        return [None for value in items], 1 > 2 or None\n    return None, None, None, inner_function\n',
+]
+
+
 def run_programs(ctx, progs, osets, found_by):
     for ident, src in progs:
         if ctx.time_left() < 10:
@@ -65,6 +76,10 @@ def run_programs(ctx, progs, osets, found_by):
             out, exc = rc.minify_with(src, extra)
             ctx.count()
             if out is None:
+                if found_by == 'literal-templates' and exc not in (None, 'RecursionError'):
+                    # the templates are ordinary valid programs: an exception while hoisting is a failure of hoisting
+                    ctx.add_violation({'input': {'source': src, 'options': extra}, 'what': 'minify raised %s while hoisting literals' % exc,
+                                       'found_by': found_by, 'oracle': 'alpha', 'shapes': rc.shapes_of(src)})
                 continue
             unh, _ = rc.minify_with(src, dict((k, v) for k, v in extra.items() if k != 'hoist_literals'))
             if unh is not None and unh != out:
@@ -90,10 +105,32 @@ def run(ctx):
     run_programs(ctx, lits, OSETS, 'literal-templates')
     progs = rc.programs(ctx, ctx.scale(500, None), ctx.scale(200, 3000))
     run_programs(ctx, progs, OSETS[:2], 'generated')
+    folding(ctx)
     hoist_placement_correspondence(ctx, lits + progs[:ctx.scale(200, 2000)])
     for k in ctx.known:
         if k.get('replay_source'):
             run_programs(ctx, [(k['id'], k['replay_source'])], OSETS, 'known')
+
+
+def folding(ctx):
+    """hoisting after constant folding: literals created by folding sit in nested scopes too.  Reference = the same program
+    with folding only; the output with folding + hoisting (+ renaming) must be alpha-equivalent to it."""
+    for i, src in enumerate(FOLDABLE):
+        ref, exc = rc.minify_with(src, dict(constant_folding=True))
+        if ref is None:
+            continue
+        for oname, extra in OSETS:
+            o = dict(extra, constant_folding=True)
+            out, exc = rc.minify_with(src, o)
+            ctx.count()
+            if out is None:
+                continue
+            if out != ref:
+                ctx.mark_nontrivial('fold%d%s' % (i, oname))
+            probs = alpha.check(ref, out)
+            if probs:
+                ctx.add_violation({'input': {'source': src, 'options': o}, 'what': 'after constant folding: ' + '; '.join(probs[:3]), 'observed': out[:400],
+                                   'found_by': 'folding', 'oracle': 'alpha', 'shapes': rc.shapes_of(src)})
 
 
 def hoist_placement_correspondence(ctx, progs):
@@ -132,6 +169,12 @@ def search(ctx):
 def replay(ctx, data):
     inp = data.get('input') or {}
     if 'source' in inp:
-        out, exc = rc.minify_with(inp['source'], inp.get('options') or {})
-        return bool(out is not None and alpha.check(inp['source'], out))
+        opts = inp.get('options') or {}
+        out, exc = rc.minify_with(inp['source'], opts)
+        ref = inp['source']
+        if opts.get('constant_folding'):
+            ref, _e = rc.minify_with(inp['source'], dict(constant_folding=True))
+        if out is None:
+            return exc not in (None, 'RecursionError')
+        return bool(ref is not None and alpha.check(ref, out))
     return bool(data.get('broken'))
